@@ -647,6 +647,11 @@ def strings_family():
     # enum members in value positions are printed with their class name in verbose mode (Color.Red);
     # bare LogicType/LogicSlotType names in value positions are not used: what the chip does with a
     # bare name there is not documented in the repository, so the loader has no meaning for it
+    # HASH inside compile-time constant expressions (folded in verbose mode too), names that begin / end with the
+    # characters of the HASH("...") wrapper, non-ASCII names
+    for k, nm in enumerate(["Silo", "Ash", "HASH", "Tank (A)", "Station", "Küche", "Wärmetauscher", "泵"]):
+        body = f'd0.Setting = (HASH("{nm}") % 256) + 1\nd1.Setting = HASH("{nm}")\nd2.Setting = GrowLights["{nm}"].On.Maximum\nGrowLights["{nm}"].On = HASH("{nm}") > 0'
+        out.append((f"st_fold_{k}", corpus._loop(body)))
     out.append(("st_enum", corpus._loop("d2.Setting = Color.Red + Color.Green\nd1.Setting = d0.Mode + LogicBatchMethod.Maximum")))
     return out
 
@@ -678,6 +683,22 @@ def modules_family():
                "def update(xa):\n    if xa < 0:\n        return 0 - xa\n    d2.Setting = xa\n    return xa + 7\n"
                "while True:\n    d1.Setting = ctl_update(d0.Setting) + ctl_update(1)\n    db.Setting = update(d0.Setting) + update(2)\n    yield_()\n")
     out.append(("md_early", {"": main4, "ctl": lib_c}, merged4))
+    # two libraries: a register-held mutable global of one must survive a call into the other (whose locals need registers)
+    lib_x = H + "level = 1\ndef raise_level(xa):\n    global level\n    level = level + xa\n    return level\n"
+    lib_y = H + "def mix(xa, xb):\n    ta = xa * 3 + 1\n    tb = xb * 5 + 2\n    tc = ta * tb - xa\n    d3.Setting = tc\n    return tc + ta + tb\n"
+    main6 = (H + "from library import mx\nfrom library import my\nwhile True:\n    va = mx.raise_level(d0.Setting)\n    vb = my.mix(va, d1.Setting)\n"
+             "    vc = my.mix(2, va)\n    d2.Setting = mx.raise_level(1) + vb + vc\n    yield_()\n")
+    merged6 = (H + "mx_level = 1\ndef mx_raise_level(xa):\n    global mx_level\n    mx_level = mx_level + xa\n    return mx_level\n"
+               "def my_mix(xa, xb):\n    ta = xa * 3 + 1\n    tb = xb * 5 + 2\n    tc = ta * tb - xa\n    d3.Setting = tc\n    return tc + ta + tb\n"
+               "while True:\n    va = mx_raise_level(d0.Setting)\n    vb = my_mix(va, d1.Setting)\n    vc = my_mix(2, va)\n    d2.Setting = mx_raise_level(1) + vb + vc\n    yield_()\n")
+    out.append(("md_two_libs_pressure", {"": main6, "mx": lib_x, "my": lib_y}, merged6))
+    # equal names for device variables in the main file and in a library
+    lib_s = H + "sensor = DaylightSensor(d1)\nlamp = WallLight(d3)\ndef angle():\n    lamp.On = sensor.Vertical > 1\n    return sensor.Horizontal\n"
+    main7 = H + "from library import sun\nsensor = DaylightSensor(d0)\nlamp = WallLight(d2)\nwhile True:\n    lamp.On = sensor.Vertical > 0\n    d4.Setting = sun.angle() + sensor.Horizontal\n    d5.Setting = sun.angle()\n    yield_()\n"
+    merged7 = (H + "sun_sensor = DaylightSensor(d1)\nsun_lamp = WallLight(d3)\nsensor = DaylightSensor(d0)\nlamp = WallLight(d2)\n"
+               "def sun_angle():\n    sun_lamp.On = sun_sensor.Vertical > 1\n    return sun_sensor.Horizontal\n"
+               "while True:\n    lamp.On = sensor.Vertical > 0\n    d4.Setting = sun_angle() + sensor.Horizontal\n    d5.Setting = sun_angle()\n    yield_()\n")
+    out.append(("md_device_names", {"": main7, "sun": lib_s}, merged7))
     return out
 
 
@@ -708,8 +729,10 @@ def check_c13(tier, t0):
                           "case=%s variant=%s split program rejected: %s" % (n, tag, str((rs["result"] or {}).get("error", {}).get("description", rs["raised"]))[:120]))
             continue
         # never-called library functions / __main__ blocks contribute no instructions
-        for marker, what in (("d5", "UNUSED_LIBRARY_FUNCTION_EMITTED"), ("d4", "LIBRARY_MAIN_BLOCK_EMITTED")):
-            if re.search(r"\b%s\b" % marker, cs):
+        alltext = "\n".join(split.values())
+        for marker, stmt, what in (("d5", "d5.Setting = xa", "UNUSED_LIBRARY_FUNCTION_EMITTED"), ("d4", "d4.Setting = 99", "LIBRARY_MAIN_BLOCK_EMITTED")):
+            # the marker device is written only by the uncalled library function / the library's __main__ block of this case
+            if stmt in alltext and alltext.count(marker + ".") == 1 and re.search(r"\b%s\b" % marker, cs):
                 rep.violation([n, n + "@" + tag], what, {"property": "C13", "case": n, "variant": tag, "modules": split, "code": cs},
                               "case=%s variant=%s %s" % (n, tag, what))
         items.append({"name": n, "tag": tag, "case": equiv.make_case(ic10load.load(cm), ic10load.load(cs)), "src": split,
